@@ -62,3 +62,31 @@ PROPS["C10"] = dict(
              thorough=dict(sim=dict(num=4000, depth=250), explore=dict(n=2000), dfs=dict(max=4000, pb=3))),
     ],
 )
+
+def rwunit(name, cfg, actors, victims, poison, n=300, fixed_cfg=None, **kw):
+    # a unit with fixed_cfg model-checks two configs: the pinned tree's protocol (a counter-example is
+    # expected: the defect) and the repaired protocol, whose behaviours are the ones replayed
+    tlc = [("spec/l2/MCRwLock.tla", cfg)] + ([("spec/l2/MCRwLock.tla", fixed_cfg)] if fixed_cfg else [])
+    return dict(name=name, scenario="rwlock",
+                tlc=tlc, sim_spec=("spec/l2/MCRwLock.tla", fixed_cfg or cfg),
+                params=dict(actors=actors, victims=victims, poison=poison, workers=8),
+                quick=dict(sim=dict(num=n, depth=250), explore=dict(n=200), dfs=dict(max=300, pb=2)),
+                thorough=dict(sim=dict(num=5000, depth=250), explore=dict(n=3000), dfs=dict(max=5000, pb=3)), **kw)
+
+PROPS["C12"] = dict(
+    assumptions=["the internal reader mutex `rlock` satisfies the Mutex contract (C05); AbsBlocker (C02)"],
+    units=[
+        rwunit("clean3", "spec/l2/MCRwLock_clean.cfg",
+               [co("a1", ["read", "try_write"]), co("a2", ["write"]), th("a3", ["try_read", "read"])], ["a2"], False),
+        rwunit("panic3", "spec/l2/MCRwLock_panic.cfg",
+               [co("a1", ["wpanic"]), th("a2", ["try_read", "write"]), co("a3", ["write", "try_write"])], [], False),
+        rwunit("poisoned3", "spec/l2/MCRwLock_poisoned.cfg",
+               [co("a1", ["try_read", "read"]), th("a2", ["write"]), co("a3", ["try_write", "read"])], [], True),
+        rwunit("poisoned_tryread", "spec/l2/MCRwLock_F1.cfg",
+               [co("a1", ["try_read"]), th("a2", ["write"])], [], True, n=100,
+               tlc_expect_error="Invariant NothingBad is violated", fixed_cfg="spec/l2/MCRwLock_F1fixed.cfg"),
+        rwunit("poisoned_2writers", "spec/l2/MCRwLock_F2.cfg",
+               [co("a1", ["write"]), th("a2", ["write"])], [], True, n=100,
+               tlc_expect_error="Invariant RWExclusion is violated", fixed_cfg="spec/l2/MCRwLock_F2fixed.cfg"),
+    ],
+)
